@@ -340,7 +340,7 @@ theorem runRules_gotoRule (env : Env) (call : String → Mark → Result) (pkt :
     runRules env call pkt (gotoRule d pat t :: rs) mark =
       if ifaceMatches env.dp pat (ifaceOf d pkt) then call t mark else runRules env call pkt rs mark := by
   cases d <;>
-    simp [runRules, gotoRule, Rule.matches, Rule.vmapOf, ifaceClause, Clause.matches, ifaceOf] <;> rfl
+    simp [runRules, gotoRule, Rule.matches, resolveAction, ifaceClause, Clause.matches, ifaceOf] <;> rfl
 
 /-- Generic: a block of goto rules followed by `tail`. -/
 theorem runRules_gotoBlock (env : Env) (call : String → Mark → Result) (pkt : Packet) (d : IfDir)
@@ -379,5 +379,187 @@ theorem ifaceMatches_wild (dp : Dataplane) (p x : Bytes) :
     ifaceMatches dp (p ++ [wildcardByte dp]) x = p.isPrefixOf x := by
   unfold ifaceMatches
   simp
+
+/-! ### the prefix tree -/
+
+def rootPat (dp : Dataplane) (b : Bytes × List Bytes) : Bytes :=
+  match b.2 with
+  | [single] => single
+  | _ => b.1 ++ [wildcardByte dp]
+
+def rootTarget (chainName ifx epPfx : String) (cp : Bytes) (b : Bytes × List Bytes) : String :=
+  match b.2 with
+  | [single] => endpointChainName epPfx single
+  | _ => childChainName chainName ifx cp b.1
+
+theorem rootRule_eq (dp : Dataplane) (chainName ifx epPfx : String) (d : IfDir) (cp : Bytes)
+    (b : Bytes × List Bytes) :
+    rootRule dp chainName ifx epPfx d cp b =
+      gotoRule d (rootPat dp b) (rootTarget chainName ifx epPfx cp b) := by
+  obtain ⟨p, ns⟩ := b
+  rcases ns with _ | ⟨a, _ | ⟨c, cs⟩⟩ <;> rfl
+
+theorem prefixOf_prefix {cp x : Bytes} (h : cp <+: x) : prefixOf cp x <+: x := by
+  unfold prefixOf
+  split
+  · exact List.take_prefix _ _
+  · exact h
+
+/-- a multi-name bucket whose key is a prefix of `x` contains `x` (if `x` is configured) -/
+theorem mem_bucket_of_prefix {names : List Bytes} {t : Tree} (ok : TreeOK names t)
+    {b : Bytes × List Bytes} (hb : b ∈ t.buckets) (hmulti : ∀ n, b.2 ≠ [n]) {x : Bytes}
+    (hx : x ∈ names) (hpre : b.1 <+: x) : x ∈ b.2 := by
+  have hne : b.1 ≠ t.commonPrefix := fun h => by
+    obtain ⟨n, hn⟩ := ok.cpSingle b hb h
+    exact hmulti n hn
+  obtain ⟨n, hn⟩ := List.exists_mem_of_ne_nil _ (ok.nonempty b hb)
+  have hk := ok.key b hb n hn
+  apply ok.complete b hb x hx
+  unfold prefixOf at hk ⊢
+  split at hk
+  · rename_i hlen
+    have hl : b.1.length = t.commonPrefix.length + 1 := by
+      rw [← hk, List.length_take]; omega
+    have hxl : b.1.length ≤ x.length := hpre.length_le
+    rw [if_pos (by omega)]
+    have := List.prefix_iff_eq_take.1 hpre
+    rw [hl] at this
+    exact this.symm
+  · exact absurd hk.symm hne
+
+theorem tree_dispatch (env : Env) (callRoot callChild : String → Mark → Result) (pkt : Packet)
+    (d : IfDir) (mark : Mark) (names : List Bytes) (t : Tree) (chainName ifx epPfx : String)
+    (endRules : List Rule) (ok : TreeOK names t)
+    (hw : ∀ n ∈ names, n.getLast? ≠ some (wildcardByte env.dp))
+    (hchild : ∀ b ∈ t.buckets, (∀ n, b.2 ≠ [n]) → ∀ m,
+      callRoot (childChainName chainName ifx t.commonPrefix b.1) m =
+        runRules env callChild pkt (b.2.map (endpointRule epPfx d) ++ endRules) m) :
+    (ifaceOf d pkt ∈ names →
+      runRules env callRoot pkt
+        (t.buckets.map (rootRule env.dp chainName ifx epPfx d t.commonPrefix) ++ endRules) mark
+          = callRoot (endpointChainName epPfx (ifaceOf d pkt)) mark ∨
+      runRules env callRoot pkt
+        (t.buckets.map (rootRule env.dp chainName ifx epPfx d t.commonPrefix) ++ endRules) mark
+          = callChild (endpointChainName epPfx (ifaceOf d pkt)) mark) ∧
+    (ifaceOf d pkt ∉ names →
+      runRules env callRoot pkt
+        (t.buckets.map (rootRule env.dp chainName ifx epPfx d t.commonPrefix) ++ endRules) mark
+          = runRules env callRoot pkt endRules mark ∨
+      runRules env callRoot pkt
+        (t.buckets.map (rootRule env.dp chainName ifx epPfx d t.commonPrefix) ++ endRules) mark
+          = runRules env callChild pkt endRules mark) := by
+  have hmap : t.buckets.map (rootRule env.dp chainName ifx epPfx d t.commonPrefix) =
+      (t.buckets.map (fun b => (rootPat env.dp b, rootTarget chainName ifx epPfx t.commonPrefix b))).map
+        (fun e => gotoRule d e.1 e.2) := by
+    rw [List.map_map]; apply List.map_congr_left; intro b _; simp [rootRule_eq]
+  have hmapc : ∀ ns : List Bytes, ns.map (endpointRule epPfx d) =
+      (ns.map (fun n => (n, endpointChainName epPfx n))).map (fun e => gotoRule d e.1 e.2) := by
+    intro ns; rw [List.map_map]; apply List.map_congr_left; intro n _; simp [endpointRule_eq]
+  have hsingle : ∀ b ∈ t.buckets, ∀ n, b.2 = [n] → n ∈ names := fun b hb n hn =>
+    (ok.mem n).2 ⟨b, hb, by rw [hn]; exact List.mem_cons_self⟩
+  rw [hmap]
+  constructor
+  · intro hx
+    apply runRules_gotoBlock env callRoot pkt d mark
+      (fun r => r = callRoot (endpointChainName epPfx (ifaceOf d pkt)) mark ∨
+                r = callChild (endpointChainName epPfx (ifaceOf d pkt)) mark)
+    · intro e he hfire
+      obtain ⟨b, hb, rfl⟩ := List.mem_map.1 he
+      simp only [rootPat, rootTarget] at hfire ⊢
+      split at hfire
+      · rename_i n hn
+        rw [ifaceMatches_exact (hw n (hsingle b hb n hn))] at hfire
+        have : n = ifaceOf d pkt := by simpa using hfire
+        simp [this]
+      · rename_i hmulti
+        rw [ifaceMatches_wild] at hfire
+        have hpre : b.1 <+: ifaceOf d pkt := List.isPrefixOf_iff_prefix.1 hfire
+        have hmulti' : ∀ n, b.2 ≠ [n] := fun n hn => hmulti n hn
+        have hxb := mem_bucket_of_prefix ok hb hmulti' hx hpre
+        right
+        rw [hchild b hb hmulti' mark, hmapc]
+        apply runRules_gotoBlock env callChild pkt d mark
+          (fun r => r = callChild (endpointChainName epPfx (ifaceOf d pkt)) mark)
+        · intro e he hf
+          obtain ⟨n, hn, rfl⟩ := List.mem_map.1 he
+          have hnn : n ∈ names := (ok.mem n).2 ⟨b, hb, hn⟩
+          rw [ifaceMatches_exact (hw n hnn)] at hf
+          have : n = ifaceOf d pkt := by simpa using hf
+          simp only [this]
+        · intro hall
+          have := hall (ifaceOf d pkt, endpointChainName epPfx (ifaceOf d pkt))
+            (List.mem_map.2 ⟨_, hxb, rfl⟩)
+          rw [ifaceMatches_exact (hw _ hx)] at this
+          simp at this
+    · intro hall
+      exfalso
+      obtain ⟨b, hb, hxb⟩ := (ok.mem _).1 hx
+      have := hall (rootPat env.dp b, rootTarget chainName ifx epPfx t.commonPrefix b)
+        (List.mem_map.2 ⟨b, hb, rfl⟩)
+      simp only [rootPat] at this
+      split at this
+      · rename_i n hn
+        rw [hn] at hxb
+        have hxn : ifaceOf d pkt = n := by simpa using hxb
+        rw [ifaceMatches_exact (hw n (hsingle b hb n hn)), hxn] at this
+        simp at this
+      · rw [ifaceMatches_wild] at this
+        have hk := ok.key b hb _ hxb
+        have hp := prefixOf_prefix (ok.cpPrefix _ hx)
+        rw [hk] at hp
+        have := List.isPrefixOf_iff_prefix.2 hp
+        simp_all
+  · intro hx
+    apply runRules_gotoBlock env callRoot pkt d mark
+      (fun r => r = runRules env callRoot pkt endRules mark ∨ r = runRules env callChild pkt endRules mark)
+    · intro e he hfire
+      obtain ⟨b, hb, rfl⟩ := List.mem_map.1 he
+      simp only [rootPat, rootTarget] at hfire ⊢
+      split at hfire
+      · rename_i n hn
+        rw [ifaceMatches_exact (hw n (hsingle b hb n hn))] at hfire
+        have : n = ifaceOf d pkt := by simpa using hfire
+        exact absurd (this ▸ hsingle b hb n hn) hx
+      · rename_i hmulti
+        have hmulti' : ∀ n, b.2 ≠ [n] := fun n hn => hmulti n hn
+        right
+        rw [hchild b hb hmulti' mark, hmapc]
+        apply runRules_gotoBlock env callChild pkt d mark
+          (fun r => r = runRules env callChild pkt endRules mark)
+        · intro e he hf
+          obtain ⟨n, hn, rfl⟩ := List.mem_map.1 he
+          have hnn : n ∈ names := (ok.mem n).2 ⟨b, hb, hn⟩
+          rw [ifaceMatches_exact (hw n hnn)] at hf
+          have : n = ifaceOf d pkt := by simpa using hf
+          exact absurd (this ▸ hnn) hx
+        · intro _; rfl
+    · intro _; exact Or.inl rfl
+
+/-! ### chain lookup -/
+
+theorem lookupChain_of_mem {chains : List Chain} (hn : (chains.map (·.name)).Nodup) {c : Chain}
+    (hc : c ∈ chains) : lookupChain chains c.name = some c.rules := by
+  induction chains with
+  | nil => exact absurd hc (by simp)
+  | cons a as ih =>
+    simp only [List.map_cons, List.nodup_cons] at hn
+    rcases List.mem_cons.1 hc with h | h
+    · subst h; simp [lookupChain]
+    · have hne : a.name ≠ c.name := fun he => hn.1 (he ▸ List.mem_map.2 ⟨c, h, rfl⟩)
+      have := ih hn.2 h
+      simp only [lookupChain, List.find?_cons] at this ⊢
+      rw [show (a.name == c.name) = false from by simpa using hne]
+      exact this
+
+theorem evalChain_of_lookup {env : Env} {chains : List Chain} {pkt : Packet} {name : String}
+    {rules : List Rule} (h : lookupChain chains name = some rules) (fuel : Nat) (mark : Mark) :
+    evalChain env chains pkt (fuel + 1) name mark =
+      runRules env (evalChain env chains pkt fuel) pkt rules mark := by
+  simp [evalChain, h]
+
+theorem evalChain_missing {env : Env} {chains : List Chain} {pkt : Packet} {name : String}
+    (h : lookupChain chains name = none) (fuel : Nat) (mark : Mark) :
+    evalChain env chains pkt (fuel + 1) name mark = .missing name := by
+  simp [evalChain, h]
 
 end CalicoVerif.C10
